@@ -492,7 +492,8 @@ def run_check(pid, tier, plan, seed=0, only=None, keep=False):
                 # a canary / finding witness: the solver must find the planted or recorded problem
                 if r.status == 'fail':
                     if q.kf and q.kf in kf:
-                        msg = 'KNOWN-FINDING: property=%s %s' % (pid, kf[q.kf]); log(msg); known_printed.append(msg)
+                        msg = 'KNOWN-FINDING: property=%s %s' % (pid, kf[q.kf])
+                        if msg not in known_printed: log(msg); known_printed.append(msg)      # one line per listed finding
                     canaries_ok += 1; entry['verdict'] = 'found-as-expected'
                 elif r.status == 'pass':
                     if q.kf:
